@@ -38,14 +38,14 @@ Ltac Zify.zify_post_hook ::= Z.to_euclidean_division_equations.
 Ltac data := cbv [ty_bytectr ty_pblk gen_assert gen_pblk_idx gen_stmts gen_wrap_cond gen_be64
                   use_ty_buflen use_ty_nbytes use_ty_bytemod use_stmts
                   pre_ty_buflen pre_decls pre_stmts pre_cond1 pre_cond2 pre_call1 pre_call2
-                  post_ty_buflen post_cond post_call sw_ty_buflen sw_cond sw_call ni_ty_buflen ni_cond
+                  post_ty_buflen post_cond post_call sw_ty_buflen sw_early sw_cond sw_call ni_ty_buflen ni_early ni_cond
                   wb_ty_buflen wb_decls wb_prologue wb_body wb_cond wb_epilogue].
 (* the evaluator: everything that depends only on the expression trees and on the C types computes;
    the values stay symbolic (no Z or N operation is unfolded) *)
 Ltac ev := cbv [eval run assign get lookup set var locals env_app fst snd valN valZ argN def
                 V_BYTECTR V_BUFLEN V_INOFF V_OUTOFF V_NBYTES V_BYTEMOD V_PBLKB
                 id_eqb peqb uac promote arith shift fit signed cvt conv cty_eqb modulus half width is_cmp
-                body_parts the_memcpy drop_vec all_assign].
+                renv rdef rok any_true body_parts count_writeback writeback drop_vec all_scalar].
 (* closed numerals *)
 Ltac closedP p := lazymatch p with xH => idtac | xO ?q => closedP q | xI ?q => closedP q | _ => fail end.
 Ltac closedZ t := lazymatch t with Z0 => idtac | Zpos ?p => closedP p | Zneg ?p => closedP p | _ => fail end.
@@ -116,7 +116,8 @@ Ltac mask_norm :=
     rewrite (land_mask x lo hi) by lia
   end;
   rewrite ?Z.shiftr_div_pow2, ?Z.shiftl_mul_pow2 by lia.
-Ltac evaluate := data; ev; fold_closed; mask_norm; fold_closed.
+Ltac bools := cbn [negb andb orb].
+Ltac evaluate := data; ev; fold_closed; mask_norm; fold_closed; bools.
 Ltac arith_eq := struct_eq; try lia.
 
 Lemma guard_ok {A} ok (r : res A) : ok = true -> guard ok r = r.
@@ -134,7 +135,12 @@ Ltac decide_if :=
     | _ => first [replace c with true by lia | replace c with false by lia]
     end
   end.
+Lemma b2z_nz c : negb (b2z c =? 0)%Z = c.
+Proof. destruct c; reflexivity. Qed.
 Ltac guards := repeat rewrite guard_ok by lia.
+(* conditions of the regenerated code, decided from the case at hand *)
+Ltac conds := rewrite ?nonzero_b2z, ?b2z_nz; unfold nonzero; rewrite ?b2z_nz;
+              repeat (decide_if; ev; bools; rewrite ?b2z_nz).
 
 (* ------------------------------------------------------------------ what the bridging needs of a state *)
 (* bytectr is a uint64_t, the call does not run past stream position 2^64, pblk has 16 bytes *)
@@ -148,7 +154,7 @@ Section Bridge.
   Lemma use_eq s inp bl n m : n <= bl -> bl < two64 ->
     use s inp bl n m = Ok (Ref.use s inp bl n m).
   Proof.
-    intros H1 H2. unfold use, Ref.use, two64 in *. evaluate.
+    intros H1 H2. unfold use, Ref.use, two64 in *. evaluate. conds.
     guards. arith_eq.
   Qed.
 
@@ -167,7 +173,7 @@ Section Bridge.
     { intros x. apply skipn_all2. unfold upd_byte. rewrite upd_length. lia. }
     destruct ((nth 15 (pblk s) 0 + 1) mod 256 =? 0) eqn:Hw;
       destruct (bytectr s mod 16 =? 0) eqn:Hm; cbn [negb];
-      evaluate; rewrite ?nonzero_b2z; repeat decide_if; ev; guards; try reflexivity.
+      evaluate; conds; guards; try reflexivity.
     - rewrite Hsk, app_nil_r. arith_eq.
     - arith_eq.
   Qed.
@@ -183,14 +189,20 @@ Section Bridge.
     rewrite app_length, firstn_length, Hu. reflexivity.
   Qed.
 
+  Lemma Ref_generate_bytectr s s1 : Ref.generate E s = Ok s1 -> bytectr s1 = bytectr s.
+  Proof.
+    unfold Ref.generate. intros H. destruct (negb (bytectr s mod 16 =? 0)); [discriminate|].
+    apply (f_equal (fun r => match r with Ok x => bytectr x | _ => bytectr s1 end)) in H. symmetry. exact H.
+  Qed.
 
+  (* ---------------------------------------------------------------- pre_wholeblock *)
   Lemma pre_whole_eq s inp bl : bytectr s + bl < two64 ->
     pre_whole s inp bl = Ok (Ref.pre_whole s inp bl).
   Proof.
     intros Hb. unfold pre_whole, Ref.pre_whole, two64 in *.
     destruct (bytectr s mod 16 =? 0) eqn:Hm; cbn [negb];
       [|destruct (bytectr s mod 16 + bl <=? 16) eqn:Hfit].
-    all: evaluate; rewrite ?nonzero_b2z; repeat decide_if; ev; fold_closed; guards; try reflexivity.
+    all: evaluate; conds; fold_closed; guards; try reflexivity.
     all: rewrite use_eq by (unfold two64; lia); cbn [bind]; arith_eq.
   Qed.
 
@@ -202,14 +214,23 @@ Section Bridge.
       cbn [bytectr pblk]; (split; [lia | exact Hp]).
   Qed.
 
+  (* when it does not finish the request it leaves the stream on a block boundary *)
+  Lemma Ref_pre_whole_aligned s inp bl : bytectr s + bl < two64 ->
+    let '(s1, _, _, _, done) := Ref.pre_whole s inp bl in done = false -> bytectr s1 mod 16 = 0.
+  Proof.
+    intros Hb. unfold Ref.pre_whole, Ref.use, two64 in *.
+    destruct (bytectr s mod 16 =? 0) eqn:Hm; cbn [negb];
+      [|destruct (bytectr s mod 16 + bl <=? 16) eqn:Hf]; cbn [bytectr]; intros; try discriminate; lia.
+  Qed.
+
   (* ---------------------------------------------------------------- the portable whole-block loop *)
   Lemma whole_eq : forall fuel s inp bl, binv s bl ->
     whole E fuel s inp bl = Ref.whole E fuel s inp bl.
   Proof.
     induction fuel as [|fuel IH]; intros s inp bl Hinv; pose proof Hinv as [Hb Hp];
       cbn [whole Ref.whole]; unfold two64 in *.
-    - destruct (16 <=? bl) eqn:Hge; evaluate; rewrite ?nonzero_b2z; repeat decide_if; guards; reflexivity.
-    - destruct (16 <=? bl) eqn:Hge; evaluate; rewrite ?nonzero_b2z; repeat decide_if; guards; [|reflexivity].
+    - destruct (16 <=? bl) eqn:Hge; evaluate; conds; guards; reflexivity.
+    - destruct (16 <=? bl) eqn:Hge; evaluate; conds; guards; [|reflexivity].
       rewrite generate_eq by (unfold two64; first [lia | assumption]).
       destruct (Ref.generate E s) as [s1| | |] eqn:Hg; cbn [bind]; try reflexivity.
       pose proof (Ref_generate_binv s s1 bl Hg Hinv) as Hinv1.
@@ -239,18 +260,19 @@ Section Bridge.
     post_whole E s inp bl = Ref.post_whole E s inp bl.
   Proof.
     intros Hinv. pose proof Hinv as [Hb Hp]. unfold post_whole, Ref.post_whole, two64 in *.
-    destruct (0 <? bl) eqn:Hpos; evaluate; rewrite ?nonzero_b2z; repeat decide_if; guards; [|reflexivity].
+    destruct (0 <? bl) eqn:Hpos; evaluate; conds; guards; [|reflexivity].
     rewrite generate_eq by (unfold two64; first [lia | assumption]).
     destruct (Ref.generate E s) as [s1| | |] eqn:Hg; cbn [bind]; try reflexivity.
     rewrite use_eq by (unfold two64; lia). cbn [bind].
-    replace (Z.to_N (Z.of_N bl mod 18446744073709551616)) with bl by lia.
+    match goal with |- context [Ref.use s1 inp bl ?n ?m] =>
+      replace n with bl by lia; replace m with 0 by lia end.
     reflexivity.
   Qed.
 
   (* ---------------------------------------------------------------- crypto_aesctr_stream, portable *)
-  Theorem stream_eq s inp : binv s (N.of_nat (length inp)) -> stream E s inp = Ref.stream E s inp.
+  Lemma stream_main_eq s inp : binv s (N.of_nat (length inp)) -> stream_main E s inp = Ref.stream E s inp.
   Proof.
-    intros Hinv. unfold stream, Ref.stream.
+    intros Hinv. unfold stream_main, Ref.stream.
     rewrite pre_whole_eq by apply Hinv. cbn [bind].
     pose proof (Ref_pre_whole_binv s inp _ Hinv) as Hinv1.
     destruct (Ref.pre_whole s inp (N.of_nat (length inp))) as [[[[s1 o1] rest] bl] done].
@@ -260,6 +282,25 @@ Section Bridge.
     rewrite (post_whole_eq s2 rest2 bl2 (Ref_whole_binv _ _ _ _ _ _ _ _ Hw Hinv1)). reflexivity.
   Qed.
 
+  (* a call with nothing to do changes nothing: what an early `if (buflen == 0) return;` relies on *)
+  Lemma Ref_stream_nil s : bytectr s < two64 -> Ref.stream E s [] = Ok (s, []).
+  Proof.
+    intros Hb. destruct s as [b bf p]. unfold Ref.stream, Ref.pre_whole, Ref.use, Ref.post_whole, two64 in *.
+    cbn [length N.of_nat bytectr buf pblk Ref.whole] in *.
+    destruct (b mod 16 =? 0) eqn:Hm; cbn [negb].
+    - reflexivity.
+    - replace (b mod 16 + 0 <=? 16) with true by lia.
+      replace ((b + 0) mod 18446744073709551616) with b by lia. reflexivity.
+  Qed.
+
+  Theorem stream_eq s inp : binv s (N.of_nat (length inp)) -> stream E s inp = Ref.stream E s inp.
+  Proof.
+    intros Hinv. unfold stream. rewrite (stream_main_eq s inp Hinv). pose proof Hinv as [Hb Hp].
+    destruct inp as [|x inp]; cbn [length] in *.
+    - rewrite (Ref_stream_nil s) by lia. unfold two64 in *. evaluate.
+      guards. match goal with |- (if ?c then _ else _) = _ => destruct c; reflexivity | _ => reflexivity end.
+    - unfold two64 in *. evaluate. conds. guards. reflexivity.
+  Qed.
 
   (* ---------------------------------------------------------------- the AES-NI whole-block loop *)
   (* the parts of the regenerated loop body: be64enc(arr, wb_bexpr); __m128i statements; wb_scalars *)
@@ -267,7 +308,7 @@ Section Bridge.
   Definition wb_scalars : list cstmt := match body_parts wb_body with Some (_, l) => l | None => [SUnknown] end.
   Lemma wb_body_shape : body_parts wb_body = Some (wb_bexpr, wb_scalars).
   Proof. reflexivity. Qed.
-  Lemma wb_epilogue_memcpy : the_memcpy wb_epilogue = Some (8, 8).
+  Lemma wb_epilogue_one_writeback : count_writeback wb_epilogue = Some 1%nat.
   Proof. reflexivity. Qed.
 
   (* the variables of crypto_aesctr_aesni_stream_wholeblocks inside / after the loop: stream->bytectr,
@@ -282,7 +323,9 @@ Section Bridge.
     apply (f_equal (@length N)) in Hs. rewrite skipn_length in Hs. cbn in Hs. lia.
   Qed.
 
-  (* the regenerated statements of the loop, evaluated on those variables *)
+  (* the regenerated statements of the loop, evaluated on those variables.  (b, bl, nb are what the
+     function was entered with: the stream position is a block boundary, nb = bl / 16 >= 1 - facts an
+     assert added to the loop body may state.) *)
   Lemma wb_bexpr_eval b bl io oo c nb i :
     eval (wb_env b bl io oo c nb i) wb_bexpr = (U64, Z.of_N (c mod two64), true).
   Proof. unfold wb_env, wb_bexpr, two64. evaluate. arith_eq. Qed.
@@ -292,9 +335,9 @@ Section Bridge.
     set (wb_env b bl 0 oo c nb i) V_OUTOFF U64 0 = (wb_env b bl 0 0 c nb i, true).
   Proof. unfold wb_env. evaluate. split; reflexivity. Qed.
 
-  Lemma wb_scalars_run b bl c nb i : 1 <= i < two64 ->
-    run (wb_env b bl 0 0 c nb i) wb_scalars = (wb_env b bl 16 16 ((c + 1) mod two64) nb (i - 1), true).
-  Proof. intros H. unfold wb_env, wb_scalars, two64 in *. evaluate. arith_eq. Qed.
+  Lemma wb_scalars_run b bl c nb i : 1 <= i < two64 -> i <= nb -> nb = bl / 16 -> bl < two64 -> b mod 16 = 0 ->
+    run (wb_env b bl 0 0 c nb i) wb_scalars = (wb_env b bl 16 16 ((c + 1) mod two64) nb (i - 1), true, true).
+  Proof. intros H H0 H1 H2 H3. unfold wb_env, wb_scalars, two64 in *. evaluate. conds. arith_eq. Qed.
 
   Lemma wb_offsets b bl c nb i :
     get (wb_env b bl 16 16 c nb i) V_INOFF = (U64, 16%Z, true) /\
@@ -302,11 +345,13 @@ Section Bridge.
   Proof. unfold wb_env. evaluate. split; reflexivity. Qed.
 
   Lemma wb_cond_eval b bl io oo c nb i : i < two64 ->
-    eval (wb_env b bl io oo c nb i) wb_cond = (S32, b2z (0 <? i), true).
-  Proof. intros H. unfold wb_env, two64 in *. evaluate. arith_eq. Qed.
+    nonzero (valZ (eval (wb_env b bl io oo c nb i) wb_cond)) = (0 <? i) /\
+    def (eval (wb_env b bl io oo c nb i) wb_cond) = true.
+  Proof. intros H. unfold wb_env, two64 in *. evaluate. conds. split; [lia | reflexivity]. Qed.
 
   (* one iteration *)
-  Lemma ni_loop_step nonce fuel b bl io oo c nb i inp : 1 <= i < two64 -> (16 <= length inp)%nat ->
+  Lemma ni_loop_step nonce fuel b bl io oo c nb i inp :
+    1 <= i < two64 -> i <= nb -> nb = bl / 16 -> bl < two64 -> b mod 16 = 0 -> (16 <= length inp)%nat ->
     ni_loop E (S fuel) nonce wb_bexpr wb_scalars (wb_env b bl io oo c nb i) inp =
     let arr := be64 (c mod two64) in
     let o := xor_list (firstn 16 inp) (E (mm_unpacklo_epi64 nonce (load_si64 arr))) in
@@ -316,118 +361,166 @@ Section Bridge.
       Ok (e2, o ++ o', rest, arr')
     else Ok (wb_env b bl 16 16 ((c + 1) mod two64) nb (i - 1), o, skipn 16 inp, arr).
   Proof.
-    intros Hi Hlen. cbn [ni_loop]. destruct (skipn15_cons inp Hlen) as (x & r & ->).
+    intros Hi Hin Hnb Hbl Hal Hlen. cbn [ni_loop]. destruct (skipn15_cons inp Hlen) as (x & r & ->).
     rewrite wb_bexpr_eval. destruct (wb_reset b bl io oo c nb i) as [-> H2].
     cbn [fst snd]. rewrite H2. cbn [fst snd]. clear H2.
-    rewrite wb_scalars_run by exact Hi. cbn [fst snd].
+    rewrite wb_scalars_run by assumption. cbv [renv rdef rok fst snd].
     destruct (wb_offsets b bl ((c + 1) mod two64) nb (i - 1)) as [-> ->].
-    rewrite wb_cond_eval by lia. cbv [def valZ valN fst snd]. rewrite nonzero_b2z.
+    destruct (wb_cond_eval b bl 16 16 ((c + 1) mod two64) nb (i - 1)) as [-> ->]; [lia|].
+    cbv [def valZ valN fst snd]. cbn [andb negb guard Z.eqb Pos.eqb].
     rewrite N2Z.id. reflexivity.
   Qed.
 
   Lemma ni_loop_eq nonce : forall n fuel b bl io oo c nb inp,
-    (S n <= fuel)%nat -> (16 * S n <= length inp)%nat -> N.of_nat (S n) < two64 ->
+    (S n <= fuel)%nat -> (16 * S n <= length inp)%nat -> N.of_nat (S n) <= nb -> nb = bl / 16 -> bl < two64 ->
+    b mod 16 = 0 ->
     ni_loop E fuel nonce wb_bexpr wb_scalars (wb_env b bl io oo c nb (N.of_nat (S n))) inp =
     let '(o, rest, c', arr) := Ref.bulk E n nonce (c mod two64) inp in
     Ok (wb_env b bl 16 16 c' nb 0, o, rest, arr).
   Proof.
-    induction n as [|n IH]; intros fuel b bl io oo c nb inp Hfuel Hlen Hn;
-      (destruct fuel as [|fuel]; [lia|]); rewrite ni_loop_step by lia; cbn [Ref.bulk]; cbv zeta.
+    induction n as [|n IH]; intros fuel b bl io oo c nb inp Hfuel Hlen Hn Hnb Hbl Hal;
+      (destruct fuel as [|fuel]; [lia|]);
+      rewrite ni_loop_step by (try assumption; unfold two64 in *; lia); cbn [Ref.bulk]; cbv zeta.
     - change (N.of_nat 1 - 1) with 0. change (0 <? 0) with false. cbv iota.
       replace ((c mod two64 + 1) mod two64) with ((c + 1) mod two64) by (unfold two64; lia). reflexivity.
     - replace (0 <? N.of_nat (S (S n)) - 1) with true by lia.
       replace (N.of_nat (S (S n)) - 1) with (N.of_nat (S n)) by lia.
-      rewrite IH by (try rewrite skipn_length; lia).
+      rewrite IH by (try rewrite skipn_length; try assumption; lia).
       replace (((c + 1) mod two64) mod two64) with ((c mod two64 + 1) mod two64) by (unfold two64; lia).
       destruct (Ref.bulk E n nonce ((c mod two64 + 1) mod two64) (skipn 16 inp)) as [[[o' rest] c'] arr'] eqn:Hbk.
       reflexivity.
   Qed.
 
   (* ---------------------------------------------------------------- crypto_aesctr_aesni_stream_wholeblocks *)
-  Lemma wb_prologue_run b bl : b < two64 -> bl < two64 ->
+  (* entered at a block boundary with at least one whole block (what asserts in the prologue may state) *)
+  Lemma wb_prologue_run b bl : b + bl < two64 -> b mod 16 = 0 -> 16 <= bl ->
     run (env_app [var V_BYTECTR ty_bytectr b; var V_BUFLEN wb_ty_buflen bl; var V_INOFF U64 0; var V_OUTOFF U64 0]
                  (locals wb_decls)) wb_prologue =
-    (wb_env b bl 0 0 (b / 16) (bl / 16) (bl / 16), true).
-  Proof. intros Hb Hl. unfold wb_env, two64 in *. evaluate. arith_eq. Qed.
+    (wb_env b bl 0 0 (b / 16) (bl / 16) (bl / 16), true, true).
+  Proof. intros Hb Hal Hge. unfold wb_env, two64 in *. evaluate. conds. arith_eq. Qed.
 
   (* THE lemma about the end-of-loop bookkeeping: for every *buflen below 2^64 (num_blocks being
      *buflen / 16) the regenerated statements subtract 16 * num_blocks from *buflen and add it to
      stream->bytectr (mod 2^64) *)
-  Lemma wb_epilogue_run b bl c nb : nb = bl / 16 -> bl < two64 ->
+  Lemma wb_epilogue_run b bl c nb : nb = bl / 16 -> bl < two64 -> 16 <= bl -> b mod 16 = 0 ->
     run (wb_env b bl 16 16 c nb 0) wb_epilogue =
-    (wb_env ((b + 16 * nb) mod two64) (bl - 16 * nb) 16 16 c nb 0, true).
-  Proof. intros H1 H2. unfold wb_env, two64 in *. evaluate. arith_eq. Qed.
+    (wb_env ((b + 16 * nb) mod two64) (bl - 16 * nb) 16 16 c nb 0, true, true).
+  Proof. intros H1 H2 H3 H4. unfold wb_env, two64 in *. evaluate. conds. arith_eq. Qed.
+
+  (* the counter written back into stream->pblk[8..15] - copied from the array the loop left, or
+     re-encoded from the block counter - is the big-endian number of the last block used *)
+  Lemma wb_writeback_eval b bl c' nb arr : nb = bl / 16 -> bl < two64 -> c' < two64 ->
+    arr = be64 ((c' + two64 - 1) mod two64) ->
+    match writeback (wb_env b bl 16 16 c' nb 0) wb_epilogue with
+    | Some (WbCopy off len) => (N.to_nat off, firstn (N.to_nat len) arr, true)
+    | Some (WbEnc off v d) => (N.to_nat off, be64 (Z.to_N v), d)
+    | None => (O, [], false)
+    end = (8%nat, arr, true).
+  Proof.
+    intros H1 H2 H3 ->. unfold wb_env, two64 in *. evaluate.
+    first [reflexivity | arith_eq].
+  Qed.
 
   Lemma wb_results b bl io oo c nb i : b < two64 -> bl < two64 ->
     get (wb_env b bl io oo c nb i) V_BYTECTR = (U64, Z.of_N b, true) /\
     get (wb_env b bl io oo c nb i) V_BUFLEN = (U64, Z.of_N bl, true).
   Proof. intros H1 H2. unfold wb_env, two64 in *. evaluate. split; arith_eq. Qed.
 
-  Lemma Ref_bulk_arr_length nonce : forall n c inp,
-    let '(_, _, _, arr) := Ref.bulk E n nonce c inp in length arr = 8%nat.
+  Lemma Ref_bulk_arr nonce : forall n c inp, c < two64 ->
+    let '(_, _, c', arr) := Ref.bulk E n nonce c inp in
+    length arr = 8%nat /\ c' < two64 /\ arr = be64 ((c' + two64 - 1) mod two64).
   Proof.
-    induction n as [|n IH]; intros c inp; cbn [Ref.bulk]; [reflexivity|].
-    specialize (IH ((c + 1) mod two64) (skipn 16 inp)).
-    destruct (Ref.bulk E n nonce ((c + 1) mod two64) (skipn 16 inp)) as [[[o r] c'] a]. exact IH.
+    induction n as [|n IH]; intros c inp Hc; cbn [Ref.bulk].
+    - split; [reflexivity|]. split; [apply N.mod_lt; discriminate|]. f_equal. unfold two64 in *. lia.
+    - specialize (IH ((c + 1) mod two64) (skipn 16 inp) ltac:(apply N.mod_lt; discriminate)).
+      destruct (Ref.bulk E n nonce ((c + 1) mod two64) (skipn 16 inp)) as [[[o r] c'] a]. exact IH.
   Qed.
 
-  Lemma wholeblocks_aesni_eq s inp bl : bl = N.of_nat (length inp) -> 16 <= bl -> binv s bl ->
+  Lemma wholeblocks_aesni_eq s inp bl :
+    bl = N.of_nat (length inp) -> 16 <= bl -> bytectr s mod 16 = 0 -> binv s bl ->
     wholeblocks_aesni E s inp bl = Ref.wholeblocks_aesni E s inp bl.
   Proof.
-    intros Hbl Hge [Hb Hp]. unfold wholeblocks_aesni, Ref.wholeblocks_aesni.
-    rewrite wb_body_shape, wb_epilogue_memcpy.
-    rewrite wb_prologue_run by lia. cbn [fst snd guard].
+    intros Hbl Hge Hal [Hb Hp]. unfold wholeblocks_aesni, Ref.wholeblocks_aesni.
+    rewrite wb_body_shape, wb_epilogue_one_writeback.
+    rewrite wb_prologue_run by assumption. cbv [renv rdef rok fst snd]. cbn [guard negb].
     destruct (N.to_nat (bl / 16)) as [|n] eqn:Hn; [unfold two64 in *; lia|].
     replace (bl / 16) with (N.of_nat (S n)) by lia.
-    rewrite ni_loop_eq by (unfold two64 in *; lia).
+    rewrite ni_loop_eq by (try assumption; unfold two64 in *; lia).
     rewrite (N.mod_small (bytectr s / 16)) by (unfold two64 in *; lia).
-    pose proof (Ref_bulk_arr_length (load_si64 (pblk s)) n (bytectr s / 16) inp) as Harr.
+    pose proof (Ref_bulk_arr (load_si64 (pblk s)) n (bytectr s / 16) inp ltac:(unfold two64 in *; lia)) as Harr.
     destruct (Ref.bulk E n (load_si64 (pblk s)) (bytectr s / 16) inp) as [[[o rest] c'] arr].
-    cbn [bind]. rewrite wb_epilogue_run by (unfold two64 in *; lia). cbn [fst snd].
+    destruct Harr as (Hlen & Hc' & Harr).
+    cbn [bind]. rewrite wb_epilogue_run by (try assumption; unfold two64 in *; lia). cbv [renv rdef rok fst snd].
+    rewrite (wb_writeback_eval (bytectr s) bl c' (N.of_nat (S n)) arr) by (try assumption; unfold two64 in *; lia).
     destruct (wb_results ((bytectr s + 16 * N.of_nat (S n)) mod two64) (bl - 16 * N.of_nat (S n)) 16 16 c'
                 (N.of_nat (S n)) 0) as [-> ->]; [unfold two64; lia | unfold two64 in *; lia |].
-    cbv [def valN valZ fst snd]. cbn [andb guard]. rewrite !N2Z.id.
-    change (N.to_nat 8) with 8%nat. change (8 + 8)%nat with 16%nat.
-    rewrite (skipn_all2 (pblk s)) by lia. rewrite app_nil_r.
-    rewrite (firstn_all2 arr) by lia. reflexivity.
+    cbv [def valN valZ fst snd]. cbn [andb negb guard]. rewrite !N2Z.id. rewrite Hlen.
+    change (8 + 8)%nat with 16%nat.
+    rewrite (skipn_all2 (pblk s)) by lia. rewrite app_nil_r. reflexivity.
   Qed.
 
   (* ---------------------------------------------------------------- crypto_aesctr_aesni_stream *)
-  Lemma Ref_wholeblocks_binv s inp bl s' o rest bl' : 16 <= bl ->
+  Lemma Ref_wholeblocks_binv s inp bl s' o rest bl' : 16 <= bl -> bytectr s < two64 ->
     Ref.wholeblocks_aesni E s inp bl = Ok (s', o, rest, bl') -> binv s bl -> binv s' bl'.
   Proof.
-    intros Hge H [Hb Hp]. unfold Ref.wholeblocks_aesni in H.
+    intros Hge Hlt H [Hb Hp]. unfold Ref.wholeblocks_aesni in H.
     destruct (N.to_nat (bl / 16)) as [|n] eqn:Hn; [discriminate|].
-    pose proof (Ref_bulk_arr_length (load_si64 (pblk s)) n (bytectr s / 16) inp) as Harr.
+    pose proof (Ref_bulk_arr (load_si64 (pblk s)) n (bytectr s / 16) inp ltac:(unfold two64 in *; lia)) as Harr.
     destruct (Ref.bulk E n (load_si64 (pblk s)) (bytectr s / 16) inp) as [[[o2 rest2] c'] arr].
+    destruct Harr as (Harr & _ & _).
     remember (firstn 8 (pblk s) ++ arr) as p' eqn:Hp'.
     injection H as <- _ _ <-. unfold binv, two64 in *. cbn [bytectr pblk]. split; [lia|].
     subst p'. rewrite app_length, firstn_length, Harr. lia.
   Qed.
 
-  Theorem stream_aesni_eq s inp : binv s (N.of_nat (length inp)) ->
-    stream_aesni E s inp = Ref.stream_aesni E s inp.
+  Lemma stream_aesni_main_eq s inp : binv s (N.of_nat (length inp)) ->
+    stream_aesni_main E s inp = Ref.stream_aesni E s inp.
   Proof.
-    intros Hinv. unfold stream_aesni, Ref.stream_aesni.
+    intros Hinv. unfold stream_aesni_main, Ref.stream_aesni.
     rewrite pre_whole_eq by apply Hinv. cbn [bind].
     pose proof (Ref_pre_whole_binv s inp _ Hinv) as Hinv1.
+    pose proof (Ref_pre_whole_aligned s inp _ (proj1 Hinv)) as Hal.
     assert (Hlen : let '(_, _, rest, bl, _) := Ref.pre_whole s inp (N.of_nat (length inp)) in
                    bl = N.of_nat (length rest)).
     { unfold Ref.pre_whole, Ref.use.
       destruct (negb (bytectr s mod 16 =? 0)); [destruct (bytectr s mod 16 + N.of_nat (length inp) <=? 16) eqn:Hf|];
         try rewrite skipn_length; lia. }
     destruct (Ref.pre_whole s inp (N.of_nat (length inp))) as [[[[s1 o1] rest] bl] done].
-    destruct done; [reflexivity|].
-    pose proof Hinv1 as [Hb1 Hp1]. unfold two64 in Hb1.
-    assert (Hc : eval [var V_BYTECTR ty_bytectr (bytectr s1); var V_BUFLEN ni_ty_buflen bl] ni_cond
-                 = (S32, b2z (16 <=? bl), true)).
-    { evaluate. arith_eq. }
-    rewrite Hc. cbv [def valZ fst snd]. cbn [guard]. rewrite nonzero_b2z.
+    destruct done; [reflexivity|]. specialize (Hal eq_refl).
+    pose proof Hinv1 as [Hb1 Hp1].
+    assert (Hlt1 : bytectr s1 < two64) by lia.
+    unfold two64 in Hb1.
+    assert (Hc : nonzero (valZ (eval [var V_BYTECTR ty_bytectr (bytectr s1); var V_BUFLEN ni_ty_buflen bl] ni_cond))
+                 = (16 <=? bl) /\
+                 def (eval [var V_BYTECTR ty_bytectr (bytectr s1); var V_BUFLEN ni_ty_buflen bl] ni_cond) = true).
+    { evaluate. conds. split; [lia | reflexivity]. }
+    destruct Hc as [-> ->]. cbn [guard].
     destruct (16 <=? bl) eqn:Hge.
-    - apply N.leb_le in Hge. rewrite (wholeblocks_aesni_eq s1 rest bl Hlen Hge Hinv1).
+    - apply N.leb_le in Hge. rewrite (wholeblocks_aesni_eq s1 rest bl Hlen Hge Hal Hinv1).
       destruct (Ref.wholeblocks_aesni E s1 rest bl) as [[[[s2 o2] rest2] bl2]| | |] eqn:Hw; cbn [bind]; try reflexivity.
-      rewrite (post_whole_eq s2 rest2 bl2 (Ref_wholeblocks_binv _ _ _ _ _ _ _ Hge Hw Hinv1)). reflexivity.
+      rewrite (post_whole_eq s2 rest2 bl2 (Ref_wholeblocks_binv _ _ _ _ _ _ _ Hge Hlt1 Hw Hinv1)).
+      reflexivity.
     - cbn [bind]. rewrite (post_whole_eq s1 rest bl Hinv1). reflexivity.
+  Qed.
+
+  Lemma Ref_stream_aesni_nil s : bytectr s < two64 -> Ref.stream_aesni E s [] = Ok (s, []).
+  Proof.
+    intros Hb. destruct s as [b bf p]. unfold Ref.stream_aesni, Ref.pre_whole, Ref.use, Ref.post_whole, two64 in *.
+    cbn [length N.of_nat bytectr buf pblk] in *.
+    destruct (b mod 16 =? 0) eqn:Hm; cbn [negb].
+    - reflexivity.
+    - replace (b mod 16 + 0 <=? 16) with true by lia.
+      replace ((b + 0) mod 18446744073709551616) with b by lia. reflexivity.
+  Qed.
+
+  Theorem stream_aesni_eq s inp : binv s (N.of_nat (length inp)) ->
+    stream_aesni E s inp = Ref.stream_aesni E s inp.
+  Proof.
+    intros Hinv. unfold stream_aesni. rewrite (stream_aesni_main_eq s inp Hinv). pose proof Hinv as [Hb Hp].
+    destruct inp as [|x inp]; cbn [length] in *.
+    - rewrite (Ref_stream_aesni_nil s) by lia. unfold two64 in *. evaluate.
+      guards. match goal with |- (if ?c then _ else _) = _ => destruct c; reflexivity | _ => reflexivity end.
+    - unfold two64 in *. evaluate. conds. guards. reflexivity.
   Qed.
 
   Theorem stream_cfg_eq hw s inp : binv s (N.of_nat (length inp)) ->
@@ -445,9 +538,10 @@ Theorem stream_cfg_eq_reference : forall (E : list N -> list N) hw s inp,
 Proof. intros E hw s inp H1 H2. apply stream_cfg_eq. split; assumption. Qed.
 
 Theorem wholeblocks_aesni_eq_reference : forall (E : list N -> list N) s inp,
-  16 <= N.of_nat (length inp) -> bytectr s + N.of_nat (length inp) < two64 -> length (pblk s) = 16%nat ->
+  16 <= N.of_nat (length inp) -> bytectr s mod 16 = 0 ->
+  bytectr s + N.of_nat (length inp) < two64 -> length (pblk s) = 16%nat ->
   wholeblocks_aesni E s inp (N.of_nat (length inp)) = Ref.wholeblocks_aesni E s inp (N.of_nat (length inp)).
-Proof. intros E s inp H0 H1 H2. apply wholeblocks_aesni_eq; [reflexivity | exact H0 | split; assumption]. Qed.
+Proof. intros E s inp H0 Ha H1 H2. apply wholeblocks_aesni_eq; [reflexivity | exact H0 | exact Ha | split; assumption]. Qed.
 
 (* ================================================================== Part 2: the theorems, for the model *)
 Section Proofs.
